@@ -24,9 +24,12 @@ def main ():
   out.append("Every change below was produced by a fresh sub-agent that saw only the property text and a scratch worktree, keeps the "
              "46 baseline tests passing, and was confirmed by the lead with `tools/mut.sh` (scratch worktree of /repo HEAD + patch: "
              "baseline tests, the agent's demonstration, the property's quick check).  `adapted` = the agent's patch no longer applied "
-             "after fix commits and was re-made against the current tree with the same mechanism.\n")
-  out.append("| seed | what was changed / what it needs to manifest | baseline tests | demo fails | caught by quick check (violation keys) |")
-  out.append("|---|---|---|---|---|")
+             "after fix commits and was re-made against the current tree with the same mechanism.  The last column is the /repo commit the row was "
+             "last confirmed against: rows confirmed at an older commit that say NO were, in most cases, caught after a later strengthening round "
+             "(section 9.2b says which) but not re-run through the recording tool; the keys shown are the last three in sort order that `tools/mut.sh` "
+             "prints, not necessarily the most specific ones.\n")
+  out.append("| seed | what was changed / what it needs to manifest | baseline tests | demo fails | caught by quick check (violation keys) | confirmed at /repo |")
+  out.append("|---|---|---|---|---|---|")
   sd = os.path.join(HERE, "seeded")
   for n in sorted(os.listdir(sd)):
     mp = os.path.join(sd, n, "meta.json")
@@ -36,9 +39,10 @@ def main ():
     summ = (m.get("summary", "") + " — needs: " + m.get("needs_to_manifest", "")).replace("|", "/").replace("\n", " ")
     if len(summ) > 420: summ = summ[:417] + "..."
     keys = ", ".join("`%s`" % x for x in c.get("violation_keys", [])[:3])
-    out.append("| %s%s | %s | %s | %s | %s |" % (n, " (adapted)" if m.get("adapted") else "", summ,
+    out.append("| %s%s | %s | %s | %s | %s | %s |" % (n, " (adapted)" if m.get("adapted") else (" (patch stale, re-made by hand)" if m.get("stale_patch") else ""), summ,
                "ok" if c.get("baseline_46_still_pass") else "?", {0: "no", None: "?"}.get(c.get("demo_exit_with_patch"), "yes"),
-               ("**yes** " + keys) if c.get("detected") else "**NO**"))
+               ("**yes** " + keys) if c.get("detected") else ("**NO**" if c.get("baseline_tests", "?") != "?" else "not re-run (patch no longer applies; last result at an older head)"),
+               c.get("against_repo_head", "")))
   out.append("")
   out.append("### 9.6 What the committed quick-tier evidence files measured\n")
   out.append("| property | level | evaluations | states | transitions | distinct outcomes | exhaustive within bound | known findings reproduced | wall s |")
